@@ -616,6 +616,9 @@ def cases(tier):
         cs += anyall_cases(L_, 'highp')
     cs += matrix_cases(tier)
     cs += lowp_inversesqrt_cases()
+    import sys
+    from rules import c01_cw
+    cs += c01_cw.cases(tier, sys.modules[__name__])
     cs += canaries()
     return cs
 
